@@ -1,6 +1,6 @@
 (* Decoding of C11 cases and verdicts. *)
 From Coq Require Import List NArith Bool.
-From FS Require Import Sx Model.Path Model.Stat Model.Tree Model.Hardlinks.
+From FS Require Import Sx Model.Path Model.Stat Model.Tree Model.Hardlinks Model.Validator Model.Converge.
 Import ListNotations.
 Open Scope bool_scope.
 
@@ -34,6 +34,48 @@ Definition run_1101 (input impl : sx) : sx :=
                        && sx_eqb (SL (map enc_stat out)) (SL (map enc_stat (reset_spec orig)))) in
       verdict m impl holds (SL [of_bool wf])
     | _, _ => v_malformed
+    end
+  | _, _ => v_malformed
+  end.
+
+(* kind 1102: a filtered view transferred end to end.
+   input = (view includes excludes);  impl = (send_err recv_err hung stats_announced dest_raw opens)
+   with opens = ((path opened_ok bytes_equal) ...) for every regular file of the FULL view, opened
+   through the same filtered FS.  Specification (C11), evaluated on the implementation's observables:
+     the announced STAT sequence is accepted by the order validator and the hard-link validator,
+     both calls succeed, the destination converged to exactly the announced view (with the
+     contents of the source files), every announced regular file opens and yields its bytes,
+     every regular file that was not announced cannot be opened. *)
+Definition vitem_of_stat (s : stat) : vitem :=
+  {| vkind := 0; vpath := st_path s; visdir := st_is_dir s |}.
+
+Definition dec_open (s : sx) : option (list N * bool * bool) :=
+  match s with SL [SB p; a; b] => x <- sx_bool a ;; y <- sx_bool b ;; Some (p, x, y) | _ => None end.
+
+Fixpoint content_of (p : list N) (l : list entry) : list N :=
+  match l with
+  | [] => []
+  | e :: r => if bytes_eqb p (st_path (fst e)) then snd e else content_of p r
+  end.
+
+Definition run_1102 (input impl : sx) : sx :=
+  match input, impl with
+  | SL (v :: _), SL [SN se; SN re; SN hung; stl; dr; ops] =>
+    match dec_view v, sx_list dec_stat stl, sx_list dec_raw dr, sx_list dec_open ops with
+    | Some view, Some announced, Some dest, Some opens =>
+      let full := walk_root view in
+      let src := map (fun s => (s, content_of (st_path s) full)) announced in
+      let ok_stream := sx_eqb (of_optnat (run_validator (map vitem_of_stat announced))) (SL [])
+                       && sx_eqb (of_optnat (hardlink_check announced)) (SL []) in
+      let success := N.eqb se 0 && N.eqb re 0 && N.eqb hung 0 in
+      let conv := converged false [] src dest in
+      let announced_reg (p : list N) := existsb (fun s => bytes_eqb (st_path s) p && mode_is_regular (st_mode s)) announced in
+      let opens_ok := forallb (fun o => let '(p, opened, same) := o in
+                                        if announced_reg p then opened && same else negb opened) opens in
+      let code := (if ok_stream then 0 else 1) + (if success then 0 else 2) + (if conv then 0 else 4) + (if opens_ok then 0 else 8) in
+      verdict impl impl (ok_stream && success && conv && opens_ok)
+              (SL (SN code :: (if success then converged_diag false [] src dest else [])))%N
+    | _, _, _, _ => v_malformed
     end
   | _, _ => v_malformed
   end.
